@@ -55,10 +55,22 @@ pub fn run_case(ctx: &mut Ctx, case: &Value, c09: bool) {
     };
     let mut rng = Rng::fork(ctx.seed ^ 0xC05, crate::report::hash_of(&case["tree"]));
     let kbkey = holder_kb_key();
-    let kb_alg = rsa_algs()[rng.below(6)].clone();
-    let kb_alg_name = keys::alg_name(&kb_alg);
-    let sets = gen_redactions(&mut rng, &ic);
+    let mut kb_alg = rsa_algs()[rng.below(6)].clone();
+    let sets = gen_redactions(&mut rng, &ic, false);
     let r = sets[rng.below(sets.len())].clone();
+    // The bound JWK of the fixtures says "alg":"RS256" while the key-binding algorithm ranges over RS/PS
+    // 256/384/512 (a verifier that takes the algorithm from the JWK instead of its policy must show). A holder
+    // may decline to sign with another algorithm than its JWK names - the properties speak of the presentations
+    // the holder does build; such a case goes on with the JWK's own algorithm.
+    if ic.kb && keys::alg_name(&kb_alg) != "RS256" {
+        let probe = real::holder_present(&ic.token, &r, Some(&KbParams { aud: AUD, key: &kbkey, alg: kb_alg.clone() }), 1);
+        let again = real::holder_present(&ic.token, &r, Some(&KbParams { aud: AUD, key: &kbkey, alg: Algorithm::RS256 }), 1);
+        if matches!(probe, Out::Err(..)) && again.is_ok() {
+            ctx.report.bump("holder-declines-alg-other-than-the-jwk-names");
+            kb_alg = Algorithm::RS256;
+        }
+    }
+    let kb_alg_name = keys::alg_name(&kb_alg);
     ctx.report.nontrivial_case(&json!([case["tree"], r, kb_alg_name, ic.kb]));
     ctx.report.bump(&format!("kb-alg:{}", kb_alg_name));
     ctx.report.bump(&format!("sd_alg:{}", ic.sd_alg));
